@@ -350,7 +350,7 @@ impl Scenario for C08 {
                 }
                 14..=15 => acts.push(Act::Deliver { pick: if rng.chance(1, 2) { 0 } else { rng.next_u32() } }),
                 16 => acts.push(Act::Drop { pick: rng.next_u32() }),
-                17 => acts.push(if rng.chance(1, 2) { Act::Halve } else { Act::Decay { pm: *rng.pick(&[1u16, 250, 500, 900, 999, 1000]) } }),
+                17 => acts.push(if rng.chance(1, 2) { Act::Halve } else { Act::Decay { pm: *rng.pick(&[1u16, 250, 500, 900, 999, 1000, 1003, 1009, 1014, 1016, 1017, 1019]) } }),
                 18 if rng.chance(1, 6) => acts.push(Act::Stranger { to: rng.below(nodes as u64) as u8, collide: rng.chance(2, 3), items: rng.range(1, 40) as u8 }),
                 _ => acts.push(Act::Check { n: rng.below(nodes as u64) as u8 }),
             }
@@ -462,7 +462,9 @@ impl Scenario for C08 {
                                 None
                             }
                             Act::Decay { pm } => {
-                                let d = (*pm).clamp(1, 1000) as f64 / 1000.0;
+                                // 1..=1000: per mille; 1001..=1019: the tiny factors 1e-1 .. 1e-19 (valid: the
+                                // documented range is (0, 1]; they matter for counters beyond 2^52)
+                                let d = if *pm > 1000 { 10f64.powi(-(((*pm - 1000).min(19)) as i32)) } else { (*pm).clamp(1, 1000) as f64 / 1000.0 };
                                 lib_call("decay", || nd.sk.decay(d))?;
                                 Some(d)
                             }
